@@ -209,6 +209,9 @@ func (m *Machine) newOpaqueObj(kind string, t *smt.Term) *Ptr {
 }
 
 func opaqueOf(v Value) *OpaqueObj {
+	if o, ok := v.(*OpaqueObj); ok {
+		return o
+	}
 	p, ok := v.(*Ptr)
 	if !ok || p == nil {
 		return nil
@@ -487,7 +490,7 @@ func init() {
 	draw := func(s smt.Sort) intrinsic {
 		return func(m *Machine, fn *ssa.Function, args []Value) Value {
 			t := m.Fresh(constStr(args[0], "symbol name"), s)
-			m.hdraw(t.Name)
+			m.hdraw(strings.TrimPrefix(t.Name, m.Prefix))
 			return t
 		}
 	}
@@ -503,7 +506,7 @@ func init() {
 	I["zzverif.Bytes"] = func(m *Machine, fn *ssa.Function, args []Value) Value {
 		n := int(args[1].(*smt.Term).SignedVal().Int64())
 		t := m.freshBytes(constStr(args[0], "symbol name"), n)
-		m.hdraw(t.Name)
+		m.hdraw(strings.TrimPrefix(t.Name, m.Prefix))
 		c := m.newCell(&OpaqueBytes{T: t, N: n}, nil, "zzbytes")
 		return &SliceV{Arr: c, Len: n, Cap: n}
 	}
@@ -511,7 +514,7 @@ func init() {
 		// a hex string encoding n arbitrary bytes
 		n := int(args[1].(*smt.Term).SignedVal().Int64())
 		t := m.freshBytes(constStr(args[0], "symbol name"), n)
-		m.hdraw(t.Name)
+		m.hdraw(strings.TrimPrefix(t.Name, m.Prefix))
 		return m.hexEncode(t, n)
 	}
 	I["zzverif.Assume"] = func(m *Machine, fn *ssa.Function, args []Value) Value {
@@ -544,7 +547,7 @@ func init() {
 		m.hdraw(name)
 		k := m.choose(n)
 		// keep the choice visible to the model/replay as a constrained symbol
-		v := smt.Var(name, smt.BV(64))
+		v := smt.Var(m.Prefix+name, smt.BV(64))
 		m.pc = append(m.pc, smt.Eq(v, smt.BVC(64, uint64(k))))
 		return smt.BVC(64, uint64(k))
 	}
@@ -568,7 +571,7 @@ func init() {
 		name := m.freshName(constStr(args[0], "crash point"))
 		m.hdraw(name)
 		k := m.choose(2)
-		v := smt.Var(name, smt.Bool)
+		v := smt.Var(m.Prefix+name, smt.Bool)
 		m.pc = append(m.pc, smt.Eq(v, smt.BoolC(k == 1)))
 		return smt.BoolC(k == 1)
 	}
